@@ -102,7 +102,7 @@ class TLCResult:
 
 
 def run_tlc(wd, module, cfg, workers="8", timeout=600, env=None, extra=None, deque=False,
-            tag=None, keep_out=False):
+            tag=None, keep_out=False, edge_sink=None, xmx=None):
     tag = tag or (module + "_" + os.path.basename(cfg).replace(".cfg", ""))
     sd = spec_copy(wd, tag)
     md = os.path.join(wd, "md_" + tag)
@@ -111,6 +111,8 @@ def run_tlc(wd, module, cfg, workers="8", timeout=600, env=None, extra=None, deq
            "-config", cfgp] + (extra or []) + [module + ".tla"]
     e = dict(os.environ)
     jto = "-Xss64m"
+    if xmx:
+        jto += " -Xmx" + xmx
     if deque:
         jto += " -Dtlc2.tool.queue.IStateQueue=StateDeque"
     e["JAVA_TOOL_OPTIONS"] = jto
@@ -129,7 +131,10 @@ def run_tlc(wd, module, cfg, workers="8", timeout=600, env=None, extra=None, deq
         for line in fi:
             if line.startswith('"EDGE '):
                 try:
-                    r.edges.append_raw(json.loads(line)[5:])
+                    if edge_sink is not None:
+                        edge_sink(json.loads(line)[5:])
+                    else:
+                        r.edges.append_raw(json.loads(line)[5:])
                 except Exception as ex:
                     raise Infra("bad EDGE line: %s (%s)" % (line[:200], ex))
                 continue
@@ -185,7 +190,7 @@ def canon(x):
     return json.dumps(x, sort_keys=True, separators=(",", ":"))
 
 
-def path_cover(edges, max_paths=None, rng=None, max_len=60):
+def path_cover(edges, max_paths=None, rng=None, max_len=60, raw_out=False):
     """edges: list of {from, act, to}.  Returns a list of paths (each a list of edges) such that
     every distinct edge appears in at least one path that starts in the initial state (the `from`
     of the first edge printed by TLC's BFS).  States are keyed by the canonical JSON of the
@@ -251,11 +256,14 @@ def path_cover(edges, max_paths=None, rng=None, max_len=60):
                 break
             x = nxt[0] if not rng else rng.choice(nxt)
             p.append(x); covered[x] = True; cur = E[x][1]
-        paths.append([edges[E[x][2]] for x in p])
+        paths.append(p)
     if max_paths and len(paths) > max_paths:
         (rng or random.Random(1)).shuffle(paths)
         paths = paths[:max_paths]
-    return paths
+    # edges are parsed (or handed out as raw JSON text with raw_out) only for the selected paths
+    if raw_out and raw is not None:
+        return [[raw[E[x][2]] for x in p] for p in paths]
+    return [[edges[E[x][2]] for x in p] for p in paths]
 
 
 def graph_stats(edges):
@@ -335,7 +343,7 @@ def validate_trace(wd, module, cfg, trace_file, timeout=600, tag=None, extra_env
     env = {"TRACE": trace_file}
     if extra_env:
         env.update(extra_env)
-    r = run_tlc(wd, module, cfg, workers=1, timeout=timeout, env=env, deque=True, tag=tag, keep_out=True)
+    r = run_tlc(wd, module, cfg, workers=1, timeout=timeout, env=env, deque=True, tag=tag, keep_out=True, xmx="3g")
     consumed = None
     m = re.search(r'"HWM", (\d+), "of", (\d+)', r.out)
     if m:
